@@ -426,3 +426,60 @@ func (c *Ctx) NoReadAhead() []core.Ob {
 	}
 	return obs
 }
+
+// ListProgress implements the progress clause of C03 for decoders whose
+// dispatch treats TagEnd as a value that consumes no input (dynbt.Value): a
+// count-bounded loop that decodes elements of a peer-chosen tag must be
+// unreachable when that tag is TagEnd - otherwise a list of TagEnd with a huge
+// count spins without reading a byte.
+func (c *Ctx) ListProgress() []core.Ob {
+	var obs []core.Ob
+	t := c.TLG()
+	for _, name := range []string{"nbt/dynbt.(*Value).UnmarshalNBT"} {
+		fn := c.Fn(name)
+		if fn == nil {
+			obs = append(obs, core.Ob{Rule: "R-PROGRESS", Key: name, Status: core.Violated, Armed: true, Want: "decoder exists", Got: "not found"})
+			continue
+		}
+		k := 0
+		for _, lp := range naturalLoops(fn) {
+			for b := range lp.body {
+				for _, in := range b.Instrs {
+					call, ok := in.(*ssa.Call)
+					if !ok {
+						continue
+					}
+					sc := call.Common().StaticCallee()
+					if sc == nil || core.Origin(sc) != fn || len(call.Common().Args) < 2 {
+						continue
+					}
+					tag := call.Common().Args[1]
+					if _, isConst := tag.(*ssa.Const); isConst {
+						continue
+					}
+					// only loops bounded by a count (the compound loop reads a tag header each round)
+					if _, isIf := lp.header.Instrs[len(lp.header.Instrs)-1].(*ssa.If); !isIf {
+						continue
+					}
+					k++
+					o := core.Ob{Rule: "R-PROGRESS", Key: fmt.Sprintf("%s#element-loop%d", name, k), Pos: c.P.Pos(call.Pos()), Func: name, Armed: true, Status: core.OK,
+						Want: "the count-bounded element loop is unreachable when the element tag is TagEnd (whose decoding consumes no input): a TagEnd list with a positive count is rejected"}
+					reached := false
+					t.ProbeAssume(fn, tag, AV{T: ivOf(0, 0)}, func(pin ssa.Instruction, eval func(ssa.Value) AV, _ func(string) (AV, bool)) {
+						if pin == ssa.Instruction(call) {
+							reached = true
+						}
+					})
+					if reached {
+						o.Status, o.Got = core.Violated, "with element tag 0 the loop body is reachable: it iterates the declared count without consuming input"
+					}
+					obs = append(obs, o)
+				}
+			}
+		}
+		if k == 0 {
+			obs = append(obs, core.Ob{Rule: "R-PROGRESS", Key: name + "#element-loop", Status: core.Violated, Armed: true, Want: "the list element loop is found", Got: "no count-bounded recursive loop found"})
+		}
+	}
+	return obs
+}
